@@ -18,7 +18,9 @@ every rule:
   C6  a call to a private module-level function, or to a private method
       through self, whose body is a single `return <expression>` is replaced
       by that expression (the pinned tree has one, CMCReadWrite._hash, which
-      stays a call: this normalises helper extraction).
+      stays a call: this normalises helper extraction);
+  C8  a call statement of a module-level "require" helper (`if not cond:
+      raise E(msg)`, or a one-line wrapper of one) becomes that if-statement.
 
 Nodes keep the source positions of the statement they came from, so reports
 still point at real lines.  The transformation never adds behaviour: every
@@ -591,8 +593,110 @@ def _inline_expr_helpers(tree):
             return
 
 
+# ---------------------------------------------------------------------
+# C8: `_require(condition, message)` helpers
+# ---------------------------------------------------------------------
+def _subst_names(node, table):
+    node = copy.deepcopy(node)
+
+    class R(ast.NodeTransformer):
+        def visit_Name(self, n):
+            if n.id in table and isinstance(n.ctx, ast.Load):
+                return copy.deepcopy(table[n.id])
+            return n
+    return R().visit(node)
+
+
+def _bind_call(fn, call):
+    a = fn.args
+    if a.vararg or a.kwarg or a.kwonlyargs or a.posonlyargs:
+        return None
+    params = [x.arg for x in a.args]
+    if any(isinstance(x, ast.Starred) for x in call.args) or \
+            any(k.arg is None for k in call.keywords) or \
+            len(call.args) > len(params):
+        return None
+    table = dict(zip(params, call.args))
+    for k in call.keywords:
+        if k.arg not in params or k.arg in table:
+            return None
+        table[k.arg] = k.value
+    defaults = dict(zip(params[len(params) - len(a.defaults):], a.defaults))
+    for p_ in params:
+        if p_ not in table:
+            if p_ not in defaults:
+                return None
+            table[p_] = defaults[p_]
+    return table
+
+
+def _inline_require_helpers(tree):
+    """C8: a call statement `_require(cond, msg)` of a module-level function
+    whose whole body is `if not <cond>: raise E(...)` (or a one-line wrapper
+    around such a function) is replaced by that if-statement, so that guard
+    rules see `if not cond: raise`."""
+    funcs = {st.name: st for st in tree.body
+             if isinstance(st, ast.FunctionDef) and not st.decorator_list}
+    helpers = {}      # name -> (fn, test expression, raise statement)
+
+    def body_of(fn):
+        return [s for s in fn.body if not (isinstance(s, ast.Expr) and
+                                           isinstance(s.value, ast.Constant))]
+    for name, fn in funcs.items():
+        b = body_of(fn)
+        if len(b) == 1 and isinstance(b[0], ast.If) and not b[0].orelse and \
+                len(b[0].body) == 1 and isinstance(b[0].body[0], ast.Raise):
+            helpers[name] = (fn, b[0].test, b[0].body[0])
+    for _ in range(2):
+        for name, fn in funcs.items():
+            if name in helpers:
+                continue
+            b = body_of(fn)
+            if len(b) == 1 and isinstance(b[0], ast.Expr) and \
+                    isinstance(b[0].value, ast.Call) and \
+                    isinstance(b[0].value.func, ast.Name) and \
+                    b[0].value.func.id in helpers:
+                hfn, test, rs = helpers[b[0].value.func.id]
+                table = _bind_call(hfn, b[0].value)
+                if table is not None:
+                    helpers[name] = (fn, _subst_names(test, table),
+                                     _subst_names(rs, table))
+    if not helpers:
+        return
+
+    def rewrite(stmts):
+        out = []
+        for st in stmts:
+            if isinstance(st, ast.Expr) and isinstance(st.value, ast.Call) \
+                    and isinstance(st.value.func, ast.Name) and \
+                    st.value.func.id in helpers:
+                hfn, test, rs = helpers[st.value.func.id]
+                table = _bind_call(hfn, st.value)
+                if table is not None:
+                    new = ast.If(test=_subst_names(test, table),
+                                 body=[_subst_names(rs, table)], orelse=[])
+                    for x in ast.walk(new):
+                        ast.copy_location(x, st)
+                    out.append(new)
+                    continue
+            for field in ("body", "orelse", "finalbody"):
+                sub = getattr(st, field, None)
+                if isinstance(sub, list) and sub and \
+                        isinstance(sub[0], ast.stmt):
+                    setattr(st, field, rewrite(sub))
+            for h in getattr(st, "handlers", []) or []:
+                h.body = rewrite(h.body)
+            out.append(st)
+        return out
+    for node in ast.walk(tree):
+        if isinstance(node, (ast.FunctionDef, ast.AsyncFunctionDef)) and \
+                node.name not in helpers:
+            node.body = rewrite(node.body)
+
+
 def canonicalise(tree):
     _DebugIf().visit(tree)
+    _inline_require_helpers(tree)
     _inline_expr_helpers(tree)
     _subst_consts(tree)
     for n in ast.walk(tree):
